@@ -207,6 +207,23 @@ def run(ctx):
                 run_case(w, base_src + "def top():\n    log('top')\n" + ((k2 + k1) if extra_first else (k1 + k2)) + "    return 't'\n",
                          lambda m: dds.eval(m.top), "OVERLAPPING_PATH",
                          "paths /m (kept function already in the store, keeps %s inside) and %s, %s first" % (inner_path, extra_path, "extra" if extra_first else "/m"))
+        # the second keep sits in an expression that Python evaluates when a nested function / a lambda is DEFINED: a default value
+        # (positional or keyword-only), an annotation, a decorator - the enclosing function runs it, so the analysis must see it
+        spots = {"lambda_default": "    h = lambda v=dds.keep('/a/b', leaf1): v\n",
+                 "lambda_kwonly_default": "    h = lambda *, v=dds.keep('/a/b', leaf1): v\n",
+                 "lambda_kwonly_default_second": "    h = lambda *, u=0, v=dds.keep('/a/b', leaf1): v\n",
+                 "def_default": "    def h(v=dds.keep('/a/b', leaf1)):\n        return v\n",
+                 "def_kwonly_default": "    def h(*, v=dds.keep('/a/b', leaf1)):\n        return v\n",
+                 "def_kwonly_after_star_args": "    def h(*xs, u=1, v=dds.keep('/a/b', leaf1)):\n        return v\n",
+                 "def_annotation": "    def h(v: dds.keep('/a/b', leaf1) = 0):\n        return v\n",
+                 "def_return_annotation": "    def h(v=0) -> dds.keep('/a/b', leaf1):\n        return v\n"}
+        for spot, line in sorted(spots.items()):
+            for first in (True, False):
+                src = HEAD + "def leaf0():\n    log('leaf0')\n    return 'v0'\n\ndef leaf1():\n    log('leaf1')\n    return 'v1'\n\n"
+                k0 = "    dds.keep('/a', leaf0)\n"
+                src += "def top():\n    log('top')\n" + ((k0 + line) if first else (line + k0)) + "    return 't'\n"
+                run_case(w, src, lambda m: dds.eval(m.top), "OVERLAPPING_PATH", "paths /a and /a/b, the second keep in a %s, %s" % (spot, "after /a" if first else "before /a"))
+                res.count("e2e_overlap_in_definition_time_expressions")
         res.count("e2e_overlap_programs", res.evaluations)
         # cycles of length 1..4 through each edge kind
         # (the last two: a plain call next to a lambda / a nested function whose PARAMETER has the name of the called function)
